@@ -220,4 +220,6 @@ def run(ctx):
     intloop.run(ctx, repo, 'C06.6-int-window')
     intloop.c_conditions(ctx, repo, 'C06.7-int-condition')
     ctx.assume('registers satisfy the C08 range invariant at instruction entry; a port-read tracer returns a byte; Python tracer calls do not raise')
+    from sa.rules import memo
+    memo.run_for(ctx, repo, 'C06')
     return report.finish(ctx, EXPLANATION)
